@@ -112,3 +112,30 @@ Proof.
       eapply rs_stop; [exact Hg|exact E2|]. intros s' Hx. discriminate.
 Qed.
 End Sched.
+
+(* ------------------------------------------------------------------ the OPEN statement of Props/C03.v *)
+Definition step_of (ob : N -> M vcell) (s : vm) : out (vm * bool) :=
+  match run_one ob s with
+  | ROk b s' => Ok (s', b)
+  | RErr e _ _ => Err e
+  | RPanic k => Panic k
+  | RNoFuel => NoFuel
+  end.
+Definition heap_iso (f : N -> N) (v1 v2 : vm) : Prop := exists W, wf W = f /\ srel W v1 v2.
+
+Theorem step_respects_heap_iso_covered ob f v1 v2 v1' halt :
+  heap_iso f v1 v2 -> covered v1 -> bounded v1' -> step_of ob v1 = Ok (v1', halt) ->
+  exists f' v2', step_of ob v2 = Ok (v2', halt) /\ heap_iso f' v1' v2'.
+Proof.
+  intros (W & <- & R) C B H. unfold step_of in *.
+  pose proof (run_one_iso ob W v1 v2 R C) as O. unfold outcome in O.
+  destruct (run_one ob v1) as [b s1'|e msg s1'| |]; try discriminate.
+  injection H as <- <-. destruct (O B) as (a2 & s2' & W' & E2 & X & R' & Q). red in Q. subst a2.
+  exists (wf W'), s2'. rewrite E2. split; [reflexivity|]. exists W'. split; [reflexivity|exact R'].
+Qed.
+
+(* a state related to itself is not dangling on its live set; with [tight] the live set is
+   exactly what the collector keeps *)
+Theorem srel_live_allocated W s1 s2 a : srel W s1 s2 -> wa W a ->
+  allocated (hp s1) a /\ allocated (hp s2) (wf W a).
+Proof. intros R Ha. split; [apply (sr_al1 _ _ _ R), Ha|apply (sr_al2 _ _ _ R), Ha]. Qed.
